@@ -48,6 +48,8 @@ MUTATE = [("crystal_structure", "el+", "crystal_structure"), ("neutron", "el+", 
           ("neutron", "iso", "neutron"), ("neutron", "D", "neutron"), ("neutron", "ed", "neutron"), ("neutron", "lu", "neutron"),
           ("magnetic_ff", "el+", "magnetic_ff"), ("neutron_activation", "iso2", "activation"), ("xray", "el+", "xray"),
           ("xray", "ion", "xray")]
+LOOKUPS = [("name", "iron"), ("name", "deuterium"), ("name", "cobalt"), ("symbol", "Fe"), ("symbol", "D"),
+           ("isotope", "56-Fe"), ("isotope", "Co"), ("isotope", "T")]
 FORMULAS = ["H2O", "Fe[56]{2+}2O{2-}3", "10wt% NaCl@2.16 // H2O@1", "D2O@1n", "5g NaCl // 50mL H2O@1", "aa:AKR"]
 
 
@@ -67,12 +69,14 @@ def event_strategy():
     t_mutate = st.tuples(st.sampled_from(MUTATE), tbl).map(lambda t: ["mutate", t[0][0], t[0][1], t[1]])
     t_pickle = st.tuples(st.sampled_from(["el+", "iso", "ion", "isoion", "D"]), tbl).map(lambda t: ["pickle", t[0], t[1]])
     t_formula = st.tuples(st.sampled_from(FORMULAS), tbl).map(lambda t: ["formula", t[0], t[1]])
+    any_tbl = st.sampled_from(["public", "T1", "T2"])
+    t_lookup = st.tuples(st.sampled_from(LOOKUPS), any_tbl).map(lambda t: ["lookup", t[0][0], t[0][1], t[1]])
     return st.one_of(st.sampled_from(pub), st.sampled_from(pub), t_init, t_init, t_read, t_calc, t_assign, t_mutate,
-                     t_mutate, t_pickle, t_formula, tbl.map(lambda t: ["create", t]))
+                     t_mutate, t_pickle, t_formula, t_lookup, tbl.map(lambda t: ["create", t]))
 
 
 def ev_table(ev):
-    if ev[0] in ("read", "hasattr", "getattr3", "assign", "mutate"):
+    if ev[0] in ("read", "hasattr", "getattr3", "assign", "mutate", "lookup"):
         return ev[3]
     if ev[0] in ("init", "calc", "pickle", "formula"):
         return ev[2]
@@ -188,6 +192,10 @@ def judge_all(history, res, canon):
         if ev[0] == "pickle":
             if o != ["ok", True]:
                 out.append(("c10:pickle:%s" % ev[1], "pickle round trip of %s of %s gave %r" % (ev[1], tbl, o)))
+        elif ev[0] == "lookup":
+            if o[0] != "ok" or o[1][1] != tbl or o[1][2] is not True:
+                out.append(("c10:lookup:%s" % ev[1], "%s.%s(%r) served %r (table %r expected, identical to table[Z]: %r)"
+                            % (tbl, ev[1], ev[2], o[1][0] if o[0] == "ok" else o, tbl, o[1][2] if o[0] == "ok" else None)))
         elif ev[0] == "formula":
             if o != ["ok", [tbl]]:
                 out.append(("c10:formula-table:%s" % ("fasta" if ":" in ev[1] else "grammar"),
@@ -257,9 +265,13 @@ def run(histories, par):
     return H.run_parallel(lambda h: H.run_history(h, final="c10"), histories, par)
 
 
-def get_canon():
+def prepare(tier):
+    return c09.prepare(tier)
+
+
+def get_canon(ctx):
     H.zygote_prepare()
-    return H.canonical(c09.full_alphabet())
+    return ctx.shared
 
 
 def classes(h):
@@ -332,17 +344,19 @@ def family_mutate(full):
         out.append(fixup([["pickle", r, "T1"], ["pickle", r, "T2"], ["pickle", r, "public"]]))
     for f in FORMULAS:
         out.append(fixup([["formula", f, "T1"]]))
+    for order in (["T1", "public", "T2"], ["public", "T1", "T2"], ["T2", "T1", "public"]):
+        out.append(fixup([["lookup", how, key, t] for t in order for how, key in LOOKUPS]))
     return out
 
 
 def task_family(ctx, which, par, full, shard=0, nshards=1):
-    canon = get_canon()
+    canon = get_canon(ctx)
     hs = family_init_first(full) if which == "init-first" else family_mutate(full)
     sweep(ctx, hs[shard::nshards], canon, par)
 
 
 def task_random(ctx, n, max_len):
-    canon = get_canon()
+    canon = get_canon(ctx)
     strat = st.lists(event_strategy(), min_size=2, max_size=max_len).map(fixup)
 
     def fn(c, h):
@@ -374,7 +388,7 @@ def tasks(tier):
 
 
 def replay(ctx, case):
-    canon = get_canon()
+    canon = get_canon(ctx)
     h = case["events"]
     r = run([h], 1)[0]
     ctx.case(tuple(H.ev_key(e) for e in h), nontrivial=nontrivial(h))
